@@ -79,8 +79,8 @@ def series(cls, cells, name="x"):
     if cls.startswith("dt_"):
         unit = {"dt_ns": "ns", "dt_us": "us", "dt_ms": "ms", "dt_s": "s", "dt_tz": "ns"}[cls]
         if cls == "dt_tz":
-            s = pd.Series([pd.NaT if m else v for v, m in zip(vals, miss)], name=name)
-            return s.astype("datetime64[ns, Europe/Paris]") if len(s) else pd.Series([], dtype="datetime64[ns, Europe/Paris]", name=name)
+            return pd.Series(pd.DatetimeIndex([pd.NaT if m else v.tz_convert("UTC") for v, m in zip(vals, miss)],
+                                              dtype="datetime64[ns, UTC]").tz_convert("Europe/Paris"), name=name)
         return pd.Series([pd.NaT if m else v for v, m in zip(vals, miss)], dtype="datetime64[%s]" % unit, name=name)
     if cls == "td_ns":
         return pd.Series([pd.NaT if m else v for v, m in zip(vals, miss)], dtype="timedelta64[ns]", name=name)
@@ -123,6 +123,29 @@ def cell_equal(cls, got, want_k):
     if cls in ("bool", "boolean"):
         return bool(got) == want
     return int(got) == want
+
+
+def stat_equal(cls, got, want_k):
+    """a min/max exposed by ParquetFile.statistics against the abstract expectation: same logical value
+    (text may come as bytes, a tz-aware instant as the naive UTC instant)"""
+    import numpy as np
+    import pandas as pd
+    want = conc(cls, want_k)
+    try:
+        if cls in ("obj_str", "str", "cat_str"):
+            g = got.decode("utf8") if isinstance(got, (bytes, np.bytes_)) else str(got)
+            return g == want
+        if cls == "obj_bytes":
+            return bytes(got) == want
+        if cls.startswith("dt_"):
+            g = pd.Timestamp(got)
+            g = g.tz_localize("UTC") if g.tzinfo is None else g.tz_convert("UTC")
+            w = pd.Timestamp(want)
+            w = w.tz_localize("UTC") if w.tzinfo is None else w.tz_convert("UTC")
+            return g == w
+        return cell_equal(cls, got, want_k)
+    except Exception:
+        return False
 
 
 def dtype_ok(cls, dtype):
